@@ -163,6 +163,16 @@ def make_cells(tier):
         dR = (ref.quat_to_R(q + qd) - ref.quat_to_R(q - qd)) / 2
         L.close(dR, ref.quat_to_R(q) @ ref.hat3(x[10:13]), "attitude kinematics R' vs R [w]x", atol=1e-11 * sc, rtol=0, **case)
         L.close(xd[0:3], ref.quat_to_R(q) @ x[3:6], "position derivative vs R v_b", atol=1e-11 * (1 + np.linalg.norm(x[3:6])), rtol=0, **case)
+        # the same state as an integrator holds it: the quaternion has drifted off the unit sphere by a small factor.
+        # q' = 1/2 q (x) w is orthogonal to q for every 4-vector q, so the norm (whatever it is) is still preserved.
+        for k in (1e-6, -3e-4, 1e-3):
+            x2 = x.copy()
+            x2[6:10] = q * (1 + k)
+            xd2, _, _ = evalf(case, x2)
+            d = float(x2[6:10] @ xd2[6:10])
+            if not math.isfinite(d) or abs(d) > 1e-12 * sc:
+                raise Violation("q . q' = %.3e != 0 for the quaternion scaled by (1 %+g) (integrator drift): its norm is not preserved" % (d, k),
+                                **case)
 
     cells.append(Cell("qnorm_kinematics", full_case(), check_qnorm, nontrivial, classify, quick=400, thorough=8000,
                       build=lambda: model()))
